@@ -114,6 +114,7 @@ prop("C09",
      assumptions=["resolvers are the harness's (World with salt 7, 1/6 nulls); subscription source = 2 events then close"],
      runs=[
          dict(test="^TestC09_(Gen|Corpus)$", quick=dict(checks=1200), thorough=dict(checks=8000, shards=16, timeout=3000)),
+         dict(test="^TestC09_Valuations$", quick=dict(checks=100), thorough=dict(checks=100, shards=8, timeout=3000)),
          dict(test="^XXX$", thorough_only=True, thorough=dict(fuzz="^FuzzC09$", fuzztime="300s", timeout=1200)),
      ])
 
@@ -185,7 +186,8 @@ prop("C06",
      rule="Non-trivial = a history that looks a key up again after it was stored (potential hit, collision or eviction), a reused plan executed more than once, or a generated document whose neighbour differs in >= 1 literal; distinct by case hash.",
      assumptions=EXEC_ASSUME,
      runs=[dict(test="^TestC06$", quick=dict(checks=4000), thorough=dict(checks=40000, shards=16, timeout=3000)),
-           dict(test="^TestC06_Gen$", quick=dict(checks=1500), thorough=dict(checks=15000, shards=16, timeout=3000))])
+           dict(test="^TestC06_Gen$", quick=dict(checks=1500), thorough=dict(checks=15000, shards=16, timeout=3000)),
+           dict(test="^TestC06_Valuations$", quick=dict(checks=100), thorough=dict(checks=100, shards=8, timeout=3000))])
 
 prop("C19",
      level_text="scaling search over document families (nesting depth through an abstract field x number of implementers, fragment chains, one fragment spread at n sites, dense fragment DAGs, fragments spreading each other twice per level through fields, n repetitions of a response key with sub-selections, input literals n deep / n wide, n mutually exclusive inline fragments, n aliases): work is read from step counters at the field-collection and field-pair-comparison sites (verif build tag) after ValidateDocument, PlanQuery and ExecutePlan; composed recipe families (1-3 root contexts under no / different concrete type conditions, directly or under one response key, x which later fragments each fragment spreads: next, next two, all later, next and n/2 ahead, every third x how: directly, through a field, through an aliased field, alternating) measured at n = 8, 12, 18, 27 (40) with consecutive-size ratio <= 12 (degree 5 gives 7.6); oracle for the fixed families = doubling ratio <= 12 on the ladder 4..64 (128 in thorough), a cubic envelope fixed at the smallest size, plan-time work identical for 2 / 8 / 32 / 128 implementers, and at most one planned runtime type per abstract value encountered at execution",
